@@ -1,10 +1,10 @@
 CONSTANTS
-  MaxA = 2
-  Budget = 1
+  MaxA = 3
+  Budget = 2
   MaxLoop = 10
   HasTry = TRUE
   Behaviours = {"ok", "5xx", "close", "never", "connfail"}
-  Defects = {"NoCleanUpOnRetryAbort"}
+  Defects = {"DropRetryStateWithoutRelease"}
 SPECIFICATION Spec
 INVARIANTS AtMostOneReply NoFallOut EndsProperly GaugeExact AttemptsBound RetriesReturned RetriesBounded
 PROPERTIES NoAttemptAfterReply RefinesAbs
